@@ -87,6 +87,8 @@ def kill_stream(rep, scratch, rng, tier):
     except OSError:
         other_tmp = None
     results["tmpdir_on_other_filesystem"] = bool(other_tmp)
+    same_tmp = os.path.join(d, "tmp")
+    os.makedirs(same_tmp, exist_ok=True)
     for big in (False, True):
         ref = os.path.join(d, "ref-%s.updog" % ("big" if big else "mem"))
         cmd = [updog, "create"] + (["-b"] if big else []) + ["-o", ref, csv]
@@ -99,8 +101,8 @@ def kill_stream(rep, scratch, rng, tier):
         for i in range(n):
             out = os.path.join(d, "k%d-%s.updog" % (i, "big" if big else "mem"))
             env = dict(core.GOENV)
-            if other_tmp and i % 2 == 1:
-                env["TMPDIR"] = other_tmp
+            # the command's scratch files never go to the system's /tmp: a killed run cannot remove them
+            env["TMPDIR"] = other_tmp if (other_tmp and i % 2 == 1) else same_tmp
             # even runs: a random instant; odd runs: the instant at which the OUTPUT PATH has
             # reached a fraction of its final size (the window in which a leftover can exist)
             delay = rng.random() * full * 1.05
@@ -138,7 +140,7 @@ def kill_stream(rep, scratch, rng, tier):
                 key = v.split()[0]
                 results[key] = results.get(key, 0) + 1
                 if key not in ("ABSENT", "ERR", "OK-EQUAL"):
-                    bad.append({"writer": "big" if big else "mem", "delay_s": round(delay, 4), "tmpdir_on_other_filesystem": "TMPDIR" in env, "verdict": v[:400]})
+                    bad.append({"writer": "big" if big else "mem", "delay_s": round(delay, 4), "tmpdir_on_other_filesystem": bool(other_tmp) and env.get("TMPDIR") == other_tmp, "verdict": v[:400]})
             os.path.exists(out) and os.remove(out)
     if other_tmp:
         import shutil
